@@ -56,11 +56,13 @@ class Cx:
         self.self_val = self_val
         self.fn_node = fn_node
         self.module_level = False
+        self.ghost_contract = None  # inside a local closure of a function under contract: that function's contract (its ghost anchors apply)
 
     def child(self, **kw):
         c = Cx(self.mod, self.cls, self.fn, self.spec, self.pre, self.contract, self.closure, self.depth, self.acc,
                self.self_val, self.fn_node)
         c.module_level = self.module_level
+        c.ghost_contract = self.ghost_contract
         for k, v in kw.items():
             setattr(c, k, v)
         return c
